@@ -509,9 +509,9 @@ def mask(R):
         if n.kind != 'stmt' or not isinstance(n.ast, (ast.Assign, ast.Return)):
             continue
         jv = n.ast.value
-        if isinstance(jv, ast.Call) and U(jv.func) in ("b''.join",) and jv.args and isinstance(jv.args[0], (ast.Tuple, ast.List)) \
-                and len(jv.args[0].elts) == 3 and mn in g.reachable([g.entry], avoid={n}) and n in g.succ_reach(mn):
-            elts = jv.args[0].elts
+        from .common import concat_parts
+        elts = concat_parts(jv)
+        if elts is not None and len(elts) == 3 and mn in g.reachable([g.entry], avoid={n}) and n in g.succ_reach(mn):
             k_el = elts[1]
             ko, kon = rd.origin(n, k_el)
             order_ok = isinstance(elts[0], ast.Name) and ko is pc
